@@ -38,8 +38,9 @@ func (tr *tracer) Start(
 		ctx = context.Background()
 	}
 
-	// For local spans created by this SDK, track child span count.
-	if p := trace.SpanFromContext(ctx); p != nil {
+	// For local spans created by this SDK, track child span count. A span
+	// started with WithNewRoot is no child of the span in ctx.
+	if p := trace.SpanFromContext(ctx); p != nil && !config.NewRoot() {
 		if sdkSpan, ok := p.(*recordingSpan); ok {
 			sdkSpan.addChild()
 		}
